@@ -26,7 +26,9 @@
    text` + `fix: an outdated update leaves the document state alone altogether` (DocumentState.version, the
    check is the first thing done under the doc_state lock; updates from a file carry no version), `fix: the identifier dictionary of a source file
    survives later updates` (DocumentState.base_dict) and `fix: save_dict writes to a temporary file and
-   renames it over the dictionary` (no truncated dictionary file is ever visible). *)
+   renames it over the dictionary` (no truncated dictionary file is ever visible), `fix: add-to-dictionary
+   commands load, extend and save a dictionary under one lock` (Backend.dict_write_lock = s_dlock: ILoadUD / ILoadFD
+   are enabled only while it is free and take it, IWriteUD / IWriteFD release it). *)
 Require Import Base.
 
 (* ---------- urls, languages, texts, dictionaries ---------- *)
@@ -146,18 +148,20 @@ Record world := mkworld {
   s_cfg : cfg;                         (* Backend.config *)
   s_docs : list (url * entry);         (* Backend.doc_state *)
   s_lock : bool;                       (* doc_state mutex held by a suspended handler *)
-  s_log : list (url * pub)             (* publishDiagnostics sent so far, newest first *)
+  s_log : list (url * pub);            (* publishDiagnostics sent so far, newest first *)
+  s_dlock : bool                       (* Backend.dict_write_lock held by a suspended handler (cfbe845) *)
 }.
 
-Definition set_open f w := mkworld f (w_ccfg w) (w_disk w) (w_udict w) (w_fdict w) (s_cfg w) (s_docs w) (s_lock w) (s_log w).
-Definition set_ccfg f w := mkworld (w_open w) f (w_disk w) (w_udict w) (w_fdict w) (s_cfg w) (s_docs w) (s_lock w) (s_log w).
-Definition set_disk f w := mkworld (w_open w) (w_ccfg w) f (w_udict w) (w_fdict w) (s_cfg w) (s_docs w) (s_lock w) (s_log w).
-Definition set_udict f w := mkworld (w_open w) (w_ccfg w) (w_disk w) f (w_fdict w) (s_cfg w) (s_docs w) (s_lock w) (s_log w).
-Definition set_fdict f w := mkworld (w_open w) (w_ccfg w) (w_disk w) (w_udict w) f (s_cfg w) (s_docs w) (s_lock w) (s_log w).
-Definition set_scfg f w := mkworld (w_open w) (w_ccfg w) (w_disk w) (w_udict w) (w_fdict w) f (s_docs w) (s_lock w) (s_log w).
-Definition set_docs f w := mkworld (w_open w) (w_ccfg w) (w_disk w) (w_udict w) (w_fdict w) (s_cfg w) f (s_lock w) (s_log w).
-Definition set_lock f w := mkworld (w_open w) (w_ccfg w) (w_disk w) (w_udict w) (w_fdict w) (s_cfg w) (s_docs w) f (s_log w).
-Definition set_log f w := mkworld (w_open w) (w_ccfg w) (w_disk w) (w_udict w) (w_fdict w) (s_cfg w) (s_docs w) (s_lock w) f.
+Definition set_open f w := mkworld f (w_ccfg w) (w_disk w) (w_udict w) (w_fdict w) (s_cfg w) (s_docs w) (s_lock w) (s_log w) (s_dlock w).
+Definition set_ccfg f w := mkworld (w_open w) f (w_disk w) (w_udict w) (w_fdict w) (s_cfg w) (s_docs w) (s_lock w) (s_log w) (s_dlock w).
+Definition set_disk f w := mkworld (w_open w) (w_ccfg w) f (w_udict w) (w_fdict w) (s_cfg w) (s_docs w) (s_lock w) (s_log w) (s_dlock w).
+Definition set_udict f w := mkworld (w_open w) (w_ccfg w) (w_disk w) f (w_fdict w) (s_cfg w) (s_docs w) (s_lock w) (s_log w) (s_dlock w).
+Definition set_fdict f w := mkworld (w_open w) (w_ccfg w) (w_disk w) (w_udict w) f (s_cfg w) (s_docs w) (s_lock w) (s_log w) (s_dlock w).
+Definition set_scfg f w := mkworld (w_open w) (w_ccfg w) (w_disk w) (w_udict w) (w_fdict w) f (s_docs w) (s_lock w) (s_log w) (s_dlock w).
+Definition set_docs f w := mkworld (w_open w) (w_ccfg w) (w_disk w) (w_udict w) (w_fdict w) (s_cfg w) f (s_lock w) (s_log w) (s_dlock w).
+Definition set_lock f w := mkworld (w_open w) (w_ccfg w) (w_disk w) (w_udict w) (w_fdict w) (s_cfg w) (s_docs w) f (s_log w) (s_dlock w).
+Definition set_log f w := mkworld (w_open w) (w_ccfg w) (w_disk w) (w_udict w) (w_fdict w) (s_cfg w) (s_docs w) (s_lock w) f (s_dlock w).
+Definition set_dlock f w := mkworld (w_open w) (w_ccfg w) (w_disk w) (w_udict w) (w_fdict w) (s_cfg w) (s_docs w) (s_lock w) (s_log w) f.
 
 Definition send (u : url) (p : pub) (w : world) : world := set_log ((u, p) :: s_log w) w.
 
@@ -251,7 +255,8 @@ Inductive instr :=
 (* publish_diagnostics *)
 | IPublish
 (* execute_command *)
-| ILoadUD | ITmpUD | IWriteUD     (* load_user_dictionary; save_dict = write a temporary sibling, then rename it over the file *)
+| ILoadUD | ITmpUD | IWriteUD     (* dict_write_lock.lock() + load_user_dictionary; save_dict = write a temporary sibling,
+                                     then rename it over the file; the guard is dropped right after the rename *)
 | ILoadFD | ITmpFD | IWriteFD
 | IIgnore (k : nat)
 | IRecord
@@ -309,7 +314,11 @@ Definition exec (i : instr) (l : locals) (w : world) : option (list instr * loca
   | IAnswer => Some ([], lset_ans (w_ccfg w) l, w)
   | IRecv => Some ([], l, set_scfg (l_ans l) w)
   | ISnap => Some ([], lset_snap (s_cfg w) l, w)
-  | IReadUD | ILoadUD | IIdentUD => Some ([], lset_ud (w_udict w) l, w)
+  | IReadUD | IIdentUD => Some ([], lset_ud (w_udict w) l, w)
+  | ILoadUD =>
+      (* `let _guard = self.dict_write_lock.lock().await;` then load_user_dictionary: the handler waits while
+         another add-word command holds the lock; the guard lives until the dictionary has been saved *)
+      if s_dlock w then None else Some ([], lset_ud (w_udict w) l, set_dlock true w)
   | IReadFD | IIdentFD => Some ([], lset_fd (fdict_of w u) l, w)
   | IUpdate =>
       if s_lock w then None else
@@ -352,13 +361,16 @@ Definition exec (i : instr) (l : locals) (w : world) : option (list instr * loca
       else Some ([], l, w)
   | IPublish => if s_lock w then None else Some ([], l, send u (pubval w u) w)
   | ITmpUD => Some ([], l, w)
-  | IWriteUD => Some ([], l, set_udict (add_word (l_word l) (l_ud l)) w)
+  | IWriteUD => Some ([], l, set_dlock false (set_udict (add_word (l_word l) (l_ud l)) w))
   | ILoadFD =>
       (* untitled: Ok(empty); save_file_dictionary then fails in file_dict_name, nothing is written *)
-      if is_file u then Some ([ITmpFD; IWriteFD], lset_fd (fdict_of w u) l, w)
+      (* the guard is taken first in both cases; for an untitled document it is dropped again before
+         anything can suspend *)
+      if s_dlock w then None else
+      if is_file u then Some ([ITmpFD; IWriteFD], lset_fd (fdict_of w u) l, set_dlock true w)
       else Some ([], lset_fd [] l, w)
   | ITmpFD => Some ([], l, w)
-  | IWriteFD => Some ([], l, set_fdict (upsert u (add_word (l_word l) (l_fd l)) (w_fdict w)) w)
+  | IWriteFD => Some ([], l, set_dlock false (set_fdict (upsert u (add_word (l_word l) (l_fd l)) (w_fdict w)) w))
   | IIgnore k =>
       if s_lock w then None else
       match lookup u (s_docs w) with
@@ -590,7 +602,7 @@ Definition observe (p : pub) : pub :=
                PDiag (mkargs (a_text a) (a_lang a) m m (a_lcfg a) (a_pcfg a) (a_scfg a) (a_ign a))
   end.
 
-Definition world0 (c : cfg) : world := mkworld [] c [] [] [] c [] false [].
+Definition world0 (c : cfg) : world := mkworld [] c [] [] [] c [] false [] false.
 
 (* entry points of the extracted driver *)
 Definition model_krun (w : world) (h : list op) (cs : list kchoice) : option sys := krun cs (init h w).
